@@ -213,6 +213,14 @@ def lanes_tasks(prop, tier):
             for alg in HASH_ALGS for f in fams[alg]]
 
 
+def wrap_tasks(prop):
+    """a buffered partial block followed by one segment that brings the sum of the two lengths to 2^31 / 2^32, per (algorithm, family)"""
+    fams = dict(sha1=["base", "sse", "avx", "avx2", "avx512", "sse_ni", "avx512_ni"], sha256=["base", "sse", "avx", "avx2", "avx512", "sse_ni", "avx512_ni"],
+                sha512=["base", "sse", "avx", "avx2", "avx512", "sb_sse4"], md5=["base", "sse", "avx", "avx2", "avx512"], sm3=["base", "avx2", "avx512"])
+    return [dict(engine="hashmb", variant="plain", timeout=3000, args=["--prop", prop, "--mode", "big", "--alg", alg, "--fam", f, "--thr", "wrap", "--watchdog", 2900])
+            for alg in HASH_ALGS for f in fams[alg]]
+
+
 def pairs_tasks(prop):
     return [dict(engine="hashmb", variant="plain", timeout=3000, args=["--prop", prop, "--mode", "big", "--alg", alg, "--thr", "pairs", "--watchdog", 2900]) for alg in HASH_ALGS]
 
@@ -256,7 +264,8 @@ def isal_cover_post(results, libinfos, counts):
 
 def params_tasks(tier):
     n = 16 if tier == "quick" else 6000
-    return [dict(engine="params", variant=v, args=["--prop", "C16", "--from", f, "--count", c]) for v in ("plain", "asan") for (f, c) in split(n if v == "plain" else max(4, n // 4), 8)]
+    # the FIPS_MODE build has its own blocks in the wrappers (key-pair comparison, self-test gate) in front of or behind the parameter checks
+    return [dict(engine="params", variant=v, args=["--prop", "C16", "--from", f, "--count", c]) for v in ("plain", "asan", "fips") for (f, c) in split(n if v == "plain" else max(4, n // 4), 8 if v != "fips" else 2)]
 
 
 def c17_tasks(tier):
@@ -276,13 +285,13 @@ def c17_tasks(tier):
     for k in range(2 if q else 4):
         w("fips", "--mode", "stress", "--pool", 8 if k % 2 == 0 else 16, "--from", k * 100000000, "--count", 200000 if q else 20000000, "--budget-s", 60 if q else 900, "--watchdog", 3000)
     w("fips", "--mode", "stress", "--pool", 64, "--from", 0, "--count", 5000 if q else 400000, "--budget-s", 60 if q else 900, "--watchdog", 3000)
-    w("fips", "--mode", "stress", "--pool", 4, "--from", 7000000, "--count", 3000, "--stall-s", 6 if q else 12, "--budget-s", 120, "--watchdog", 3000)
+    w("fips", "--mode", "stress", "--pool", 4, "--from", 7000000, "--count", 3000, "--stall-s", 20 if q else 60, "--budget-s", 300 if q else 800, "--watchdog", 3000)
     w("fips-tsan", "--mode", "stress", "--pool", 8, "--from", 0, "--count", 5000 if q else 300000, "--budget-s", 60 if q else 900, "--watchdog", 3000)
     # the portable self-test driver (fips/self_tests_generic.c: C11 atomics, usleep in the wait loop), make arch=noarch FIPS_MODE=y
     for (f, c) in split(3000 if q else 300000, 4 if q else 8):
         w("fips-noarch", "--noarch", 1, "--mode", "sched", "--from", f, "--count", c, "--watchdog", 3000 if q else 20000, timeout=3600 if q else 21000)
     w("fips-noarch", "--noarch", 1, "--mode", "stress", "--pool", 16, "--from", 0, "--count", 100000 if q else 5000000, "--budget-s", 40 if q else 600, "--watchdog", 3000)
-    w("fips-noarch", "--noarch", 1, "--mode", "stress", "--pool", 4, "--from", 7000000, "--count", 3000, "--stall-s", 6 if q else 12, "--budget-s", 120, "--watchdog", 3000)
+    w("fips-noarch", "--noarch", 1, "--mode", "stress", "--pool", 4, "--from", 7000000, "--count", 3000, "--stall-s", 8 if q else 20, "--budget-s", 120, "--watchdog", 3000)
     w("fips-noarch-tsan", "--noarch", 1, "--mode", "stress", "--pool", 8, "--from", 0, "--count", 3000 if q else 200000, "--budget-s", 40 if q else 600, "--watchdog", 3000)
     return t
 
@@ -526,7 +535,7 @@ CHECKS = {
               "the same hash histories also run on an AddressSanitizer build of the C layers; distinct_nontrivial = distinct (operation, family, key size, direction, route, in-place, length class)"),
         assumptions=TRUST + ["reads that stay inside the page of a mid-placed buffer are invisible to guard pages (end/start placements cover both sides); the <64-byte slack of 64-byte aligned nt buffers is only canary-checked for writes",
                              "internal family symbols are called the way the library's own wrappers call them"],
-        tasks=bounds_tasks,
+        tasks=lambda tier: bounds_tasks(tier) + wrap_tasks("C08"),
     ),
     "C19": dict(
         technique='register/stack trampoline with sentinels, canaries, non-default MXCSR/x87 control word and varying stack alignment around every ABI-bound entry point (set computed from nm)',
@@ -579,7 +588,7 @@ CHECKS = {
               "In both tiers random histories on all 28 pairs x 3 routes additionally move an idle context's documented running total (and the model's) forward by whole blocks to just below a threshold, so the following segments cross it at every residue without hashing gigabytes (the expected digest is the reference hash of the submitted bytes padded with the adjusted total). Small random histories add the total_length check at every hand-back. "
               "distinct_nontrivial = distinct (family, threshold, running total mod 2 blocks, flags, above/below threshold)"),
         assumptions=TRUST + ["OpenSSL 3.0 EVP digests as oracle for multi-GiB streams"],
-        tasks=lambda tier: big_tasks(tier) + pairs_tasks("C15") + lanes_tasks("C15", tier) + noarch_hash_tasks("C15", 3, tier, extra=["--jump", 1]) + ([dict(engine="hashmb", variant="plain", timeout=7000, args=["--prop", "C15", "--mode", "big", "--alg", alg, "--fam", f, "--thr", "decay", "--watchdog", 6900])
+        tasks=lambda tier: big_tasks(tier) + pairs_tasks("C15") + lanes_tasks("C15", tier) + wrap_tasks("C15") + noarch_hash_tasks("C15", 3, tier, extra=["--jump", 1]) + ([dict(engine="hashmb", variant="plain", timeout=7000, args=["--prop", "C15", "--mode", "big", "--alg", alg, "--fam", f, "--thr", "decay", "--watchdog", 6900])
                                                                       for alg, fl in (("sha1", ["sse", "avx", "avx2", "avx512", "sse_ni", "avx512_ni"]), ("sha256", ["sse", "avx", "avx2", "avx512", "sse_ni", "avx512_ni"]), ("sha512", ["sse", "avx", "avx2", "avx512"]),
                                                                                       ("md5", ["sse", "avx", "avx2", "avx512"]), ("sm3", ["avx2", "avx512"])) for f in fl] if tier == "thorough" else []),
     ),
@@ -626,7 +635,7 @@ CHECKS = {
               "(pause = yield), so every instruction boundary of asm_check_self_tests_status / asm_set_self_tests_status / isal_self_tests is a preemption point. Random schedules "
               "switch with probability 2-42% per protocol instruction; systematic schedules enumerate every (preemption position, target thread) tuple. Stress mode: 1..64 pooled threads "
               "released from a spinning barrier with random start delays and random time spent inside the self-tests, real self-tests in 0.5% of the rounds (a tenth of them with a natural verdict: flipped known-answer bits in any subset "
-              "of the SHA/GCM/CBC/XTS groups), one round whose winner is stalled for 6 s (12 s in thorough) inside the self-tests while the others wait, status re-armed between rounds; "
+              "of the SHA/GCM/CBC/XTS groups), one round whose winner stays inside the self-tests until every waiting thread has spent 20 s (60 s in thorough) of its own CPU time waiting (so a waiter that gives up after a bounded number of spins below that is seen whatever the load; longer bounds are not), with signals delivered to the sleeping waiters of the portable driver, status re-armed between rounds; "
               "also on a ThreadSanitizer build. Per run: the AES and SHA self-tests must each be entered exactly once, every call must return the injected verdict, no call may return "
               "before the self-tests finished (one atomic logical clock), the verdict must be published, a spinning thread must return within 400 of its own steps after publication, "
               "and a thread may not spin for more than 200000 steps. distinct_nontrivial = distinct schedules (hash of the (target thread, protocol step) switch sequence) and "
